@@ -236,7 +236,8 @@ class SessionDriver:
         torch = self.torch
         e = self.e
         was = m.training
-        m.eval()
+        if m.training:
+            m.eval()   # (a model that already is in evaluation mode is probed as it stands)
         # compare like with like: the cached log-det of a linear transform is computed by a different
         # (1-ulp different) formula depending on whether forward or inverse filled the cache first
         from nflows.transforms.linear import Linear
